@@ -1,4 +1,5 @@
 import WindVerif.Proofs.TmpPool
+import WindVerif.Proofs.FilePoolFail
 /-!
 # C20 — TmpPool and FilePool leave nothing behind
 
@@ -60,5 +61,99 @@ theorem filepool_closed (files : List Nat) :
 /-- non-vacuity: a child creates a file after the parent's flush; leaving the context removes it -/
 example : (run Pool.new [.create 0, .fork 0, .flush 0, .create 1]).fs = [1] ∧
     (run Pool.new [.create 0, .fork 0, .flush 0, .create 1]).listOf 0 = some [1] := by decide
+
+end WindVerif.C20
+
+/-!
+### FilePool when a file cannot be opened, and pools that are entered again
+
+Model `Model/FilePoolFail.lean`, proofs `Proofs/FilePoolFail.lean`.  `open()` is
+`self.file_handles = {f: open(f, mode) for f in self._files}`: when the k-th `open` raises the assignment does not happen and
+the k handles opened so far are referenced by nobody — the pool never closes them.  This is the existing behaviour; it is
+stated here (`enter_fail_state`, `leaked_stay_open`), not repaired.
+-/
+namespace WindVerif.C20
+open WindVerif.FilePoolFail
+
+/-- `open()` succeeds iff no path of the pool is missing -/
+theorem enter_ok_iff (s : FP) : (fpEnter s).2 = .ok () ↔ ∀ p ∈ s.files, p ∉ s.missing := by
+  first | exact WindVerif.FilePoolFail.enter_ok_iff .. | (apply WindVerif.FilePoolFail.enter_ok_iff <;> assumption)
+
+/-- a failing `open()` raises `FileNotFoundError`, leaves the mapping as it was, and leaks exactly the handles of the paths
+before the first missing one (they stay open) -/
+theorem enter_fail_state (s : FP) (h : (fpEnter s).2 ≠ .ok ()) :
+    ∃ pre p post, s.files = pre ++ p :: post ∧ p ∈ s.missing ∧ (∀ q ∈ pre, q ∉ s.missing) ∧
+      (fpEnter s).2 = .error .fileNotFound ∧
+      (fpEnter s).1.mapping = s.mapping ∧
+      (fpEnter s).1.leaked = s.leaked ++ pre.zip (List.range' s.next pre.length) ∧
+      (fpEnter s).1.openH = s.openH ++ List.range' s.next pre.length ∧
+      (fpEnter s).1.next = s.next + pre.length ∧
+      (fpEnter s).1.files = s.files ∧ (fpEnter s).1.missing = s.missing := by
+  first | exact WindVerif.FilePoolFail.enter_fail_state .. | (apply WindVerif.FilePoolFail.enter_fail_state <;> assumption)
+
+/-- a successful `open()`: the mapping's keys are the pool's paths, every handle in it was opened by this call and is open;
+for distinct paths the mapping is the paths paired with fresh handles, in order -/
+theorem enter_ok_state (s : FP) (h : (fpEnter s).2 = .ok ()) :
+    ∃ d, (fpEnter s).1.mapping = some d ∧
+      (∀ q, q ∈ d.map (·.1) ↔ q ∈ s.files) ∧
+      (∀ ph ∈ d, s.next ≤ ph.2 ∧ ph.2 < (fpEnter s).1.next ∧ ph.2 ∈ (fpEnter s).1.openH) ∧
+      (s.files.Nodup → d = s.files.zip (List.range' s.next s.files.length)) := by
+  first | exact WindVerif.FilePoolFail.enter_ok_state .. | (apply WindVerif.FilePoolFail.enter_ok_state <;> assumption)
+
+/-- any number of `__enter__` / `__exit__` rounds on a closed pool whose (distinct) files all exist: all calls succeed;
+afterwards the mapping is reset, no handle of the rounds is open and nothing was leaked (the state is the old one but for the
+count of handles ever opened) -/
+theorem rounds_closed (n : Nat) (s : FP) (hm : s.mapping = none) (hok : ∀ p ∈ s.files, p ∉ s.missing)
+    (hn : s.files.Nodup) (hb : ∀ h : Nat, h ∈ s.openH → h < s.next) :
+    rounds n s = ({ s with next := s.next + n * s.files.length }, List.replicate (2 * n) (.ok ())) := by
+  first | exact WindVerif.FilePoolFail.rounds_closed .. | (apply WindVerif.FilePoolFail.rounds_closed <;> assumption)
+
+/-- a fresh pool whose FIRST path is missing: `__enter__` raises and nothing is leaked; after the file has appeared the same
+pool object serves any number of rounds, and then every handle is closed, the mapping reset, nothing leaked -/
+theorem reenter_after_failure (p : Path) (rest missing : List Path) (n : Nat)
+    (hp : p ∈ missing) (honly : ∀ q ∈ missing, q = p) (hn : (p :: rest).Nodup) :
+    let s1 := fpEnter (FP.new (p :: rest) missing)
+    s1.2 = .error .fileNotFound ∧ s1.1.mapping = none ∧ s1.1.openH = [] ∧ s1.1.leaked = [] ∧
+    let s3 := rounds n (fpCreate s1.1 p)
+    s3.2 = List.replicate (2 * n) (.ok ()) ∧ s3.1.mapping = none ∧ s3.1.openH = [] ∧ s3.1.leaked = [] ∧
+      s3.1.next = n * (p :: rest).length := by
+  first | exact WindVerif.FilePoolFail.reenter_after_failure .. | (apply WindVerif.FilePoolFail.reenter_after_failure <;> assumption)
+
+/-- whatever the history (failed and successful enters, exits, files appearing and disappearing): `close()` on an open pool
+succeeds, resets the mapping and closes every handle the mapping held; exactly the leaked handles stay open -/
+theorem exit_closes_all (files missing : List Path) (ops : List Op) (m : Dict)
+    (hm : (run (FP.new files missing) ops).mapping = some m) :
+    let s' := fpExit (run (FP.new files missing) ops)
+    s'.2 = .ok () ∧ s'.1.mapping = none ∧ (∀ ph ∈ m, ph.2 ∉ s'.1.openH) ∧
+      (∀ h, h ∈ s'.1.openH ↔ h ∈ vals (run (FP.new files missing) ops).leaked) ∧
+      s'.1.leaked = (run (FP.new files missing) ops).leaked := by
+  first | exact WindVerif.FilePoolFail.exit_closes_all .. | (apply WindVerif.FilePoolFail.exit_closes_all <;> assumption)
+
+/-- existing behaviour, stated: a leaked handle is never closed by the pool -/
+theorem leaked_stay_open (files missing : List Path) (ops : List Op) :
+    ∀ ph ∈ (run (FP.new files missing) ops).leaked, ph.2 ∈ (run (FP.new files missing) ops).openH := by
+  first | exact WindVerif.FilePoolFail.leaked_stay_open .. | (apply WindVerif.FilePoolFail.leaked_stay_open <;> assumption)
+
+/-- `close()` on a pool that is not open (never opened, or its `open()` failed) raises `AttributeError`, nothing changes -/
+theorem exit_not_open (s : FP) (hm : s.mapping = none) : (fpExit s).2 = .error .attributeError ∧ (fpExit s).1 = s := by
+  first | exact WindVerif.FilePoolFail.exit_not_open .. | (apply WindVerif.FilePoolFail.exit_not_open <;> assumption)
+
+/-- non-vacuity.  The second of three files is missing: the first handle is leaked; the file appears, the pool is entered
+again and left: handle 0 is still open, the three new ones are closed -/
+example : fpEnter (FP.new [10, 11, 12] [11]) =
+    ({ files := [10, 11, 12], missing := [11], mapping := none, openH := [0], leaked := [(10, 0)], next := 1 },
+      .error .fileNotFound) := by rfl
+example : run (FP.new [10, 11, 12] [11]) [.enter, .create 11, .enter] =
+    { files := [10, 11, 12], missing := [], mapping := some [(10, 1), (11, 2), (12, 3)], openH := [0, 1, 2, 3],
+      leaked := [(10, 0)], next := 4 } := by decide
+example : run (FP.new [10, 11, 12] [11]) [.enter, .create 11, .enter, .exit] =
+    { files := [10, 11, 12], missing := [], mapping := none, openH := [0], leaked := [(10, 0)], next := 4 } := by decide
+/-- the hypotheses of `reenter_after_failure` / `rounds_closed` on a concrete pool, and its conclusion for two rounds -/
+example : (10 : Path) ∈ [10] ∧ (∀ q ∈ ([10] : List Path), q = 10) ∧ ([10, 11] : List Path).Nodup := by decide
+example : (rounds 2 (fpCreate (fpEnter (FP.new [10, 11] [10])).1 10)).1 =
+    { files := [10, 11], missing := [], mapping := none, openH := [], leaked := [], next := 4 } := by decide
+/-- a path given twice: the handle that is overwritten in the dict is leaked although `open()` succeeded -/
+example : run (FP.new [10, 10] []) [.enter, .exit] =
+    { files := [10, 10], missing := [], mapping := none, openH := [0], leaked := [(10, 0)], next := 2 } := by decide
 
 end WindVerif.C20
